@@ -618,3 +618,77 @@ func checkClosedLatchReadOnlyByTheConnection(c *Ctx, rule string) {
 	}
 	c.floor(rule, 2)
 }
+
+// checkCommaOkPointerUsedUnderOk (C20.Z16, shared as C07.R25): the pointer a comma-ok type assertion yields is nil when
+// the assertion fails.  Every dereference of it (field access, method call on it) is dominated by the true side of a
+// test of the ok value or the non-nil side of a test of the pointer — otherwise an error of another dynamic type (a
+// truncated STATUS gives errShortPacket, a normalised one os.ErrNotExist) makes the caller panic with a nil dereference.
+func checkCommaOkPointerUsedUnderOk(c *Ctx, rule string, want func(fn *ssa.Function) bool, floor int) {
+	p := c.P
+	n := 0
+	for _, fn := range p.LibFuncs() {
+		if outermost(fn).Package() != p.Sftp || (want != nil && !want(fn)) {
+			continue
+		}
+		eachInstr(fn, func(in ssa.Instruction) {
+			ta, ok := in.(*ssa.TypeAssert)
+			if !ok || !ta.CommaOk {
+				return
+			}
+			if _, isPtr := ta.AssertedType.Underlying().(*types.Pointer); !isPtr {
+				return
+			}
+			var val, okv ssa.Value
+			for _, r := range *ta.Referrers() {
+				if ex, isEx := r.(*ssa.Extract); isEx {
+					if ex.Index == 0 {
+						val = ex
+					} else {
+						okv = ex
+					}
+				}
+			}
+			if val == nil {
+				return
+			}
+			// blocks in which the pointer is known to be non-nil
+			var safe []*ssa.BasicBlock
+			if okv != nil {
+				for _, r := range *okv.Referrers() {
+					if iff, isIf := r.(*ssa.If); isIf && len(iff.Block().Succs) == 2 {
+						safe = append(safe, iff.Block().Succs[0])
+					}
+					// `ok && …`: the right operand is evaluated on the true edge; handled by the If on ok itself
+				}
+			}
+			for _, t := range nilTests(val) {
+				safe = append(safe, t.nonNil)
+			}
+			guarded := func(b *ssa.BasicBlock) bool {
+				for _, s := range safe {
+					if len(s.Preds) == 1 && s.Dominates(b) {
+						return true
+					}
+				}
+				return false
+			}
+			for _, r := range *val.Referrers() {
+				deref := false
+				switch x := r.(type) {
+				case *ssa.FieldAddr:
+					deref = x.X == val
+				case *ssa.UnOp:
+					deref = x.X == val && x.Op.String() == "*"
+				}
+				if !deref {
+					continue
+				}
+				n++
+				c.check(guarded(r.Block()), rule, fmt.Sprintf("use of the pointer of a comma-ok assertion to %s in %s", typeName(ta.AssertedType), fnName(fn)), p.Pos(r.Pos()),
+					"under the ok test",
+					"the pointer of a comma-ok type assertion is dereferenced where the assertion may have failed (it is nil then): an error of another dynamic type panics the caller")
+			}
+		})
+	}
+	c.floor(rule, floor)
+}
